@@ -49,6 +49,7 @@ type c18FuncV struct {
 	fr   *c18Frame
 	fi   *FuncInfo
 	recv *c18Val
+	ext  *types.Func // a function outside the repository used as a value; called through m.ext (callExtValue)
 }
 
 func (v c18Val) fn() *c18FuncV { p, _ := v.ref.(*c18FuncV); return p }
@@ -501,7 +502,46 @@ func (m *c18Machine) callValue(f *c18FuncV, args []c18Val, ellipsis bool) []c18V
 		}
 		return m.invoke("function literal", f.fr.pk, nil, f.lit.Type, f.lit.Body, sig, f.fr, nil, args, ellipsis)
 	}
+	if f.ext != nil && f.fi == nil {
+		return m.callExtValue(f.ext, args)
+	}
 	return m.callFunc(f.fi, f.recv, args, ellipsis)
+}
+
+// callExtValue calls a function outside the repository through a function value: the rule's model (m.ext) reads its
+// arguments from a call expression, so one is synthesised whose arguments are identifiers bound to the values.
+func (m *c18Machine) callExtValue(fn *types.Func, args []c18Val) []c18Val {
+	if m.ext == nil {
+		m.abort("call of %s through a function value (outside the repository, no model)", fullName(fn))
+	}
+	info := &types.Info{Uses: map[*ast.Ident]types.Object{}, Defs: map[*ast.Ident]types.Object{}, Types: map[ast.Expr]types.TypeAndValue{}, Selections: map[*ast.SelectorExpr]*types.Selection{}}
+	fr := &c18Frame{info: info, env: map[types.Object]*c18Val{}}
+	fun := ast.NewIdent(fn.Name())
+	info.Uses[fun] = fn
+	call := &ast.CallExpr{Fun: fun}
+	sig, _ := fn.Type().(*types.Signature)
+	for i := range args {
+		id := ast.NewIdent(fmt.Sprintf("arg%d", i))
+		var t types.Type = types.Typ[types.Invalid]
+		if sig != nil && i < sig.Params().Len() {
+			t = sig.Params().At(i).Type()
+		}
+		v := types.NewVar(token.NoPos, fn.Pkg(), id.Name, t)
+		info.Uses[id] = v
+		a := args[i]
+		fr.env[v] = &a
+		call.Args = append(call.Args, id)
+	}
+	v, ok := m.ext(m, fr, fullName(fn), call)
+	if !ok {
+		m.abort("call of %s through a function value (outside the repository, no model)", fullName(fn))
+	}
+	if v.k == c18Tuple {
+		if vs, isT := v.ref.([]c18Val); isT {
+			return vs
+		}
+	}
+	return []c18Val{v}
 }
 
 // invoke interprets a function body. parent is the defining frame of a function literal (nil for declared functions).
@@ -1183,6 +1223,14 @@ func (m *c18Machine) eval(fr *c18Frame, e ast.Expr) c18Val {
 		obj := info.Uses[e.Sel]
 		if v, ok := obj.(*types.Var); ok {
 			return *m.global(v)
+		}
+		if fn, ok := obj.(*types.Func); ok {
+			if fi := m.funcInfo(fn); fi != nil {
+				return c18Val{k: c18Func, ref: &c18FuncV{fi: fi}}
+			}
+			if m.ext != nil {
+				return c18Val{k: c18Func, ref: &c18FuncV{ext: fn}}
+			}
 		}
 		m.abort("qualified identifier %s is not a variable or constant", types.ExprString(e))
 	case *ast.IndexExpr:
@@ -2026,12 +2074,29 @@ outer:
 	if chosen == nil {
 		return c18Ctl{}
 	}
-	for _, st := range chosen.Body {
-		if br, ok := st.(*ast.BranchStmt); ok && br.Tok == token.FALLTHROUGH {
-			m.abort("fallthrough")
+	ctl := c18Ctl{}
+	for chosen != nil {
+		// a final `fallthrough` (the only place the language allows it) continues with the next clause in source order
+		body, next := chosen.Body, (*ast.CaseClause)(nil)
+		if n := len(body); n > 0 {
+			if br, ok := body[n-1].(*ast.BranchStmt); ok && br.Tok == token.FALLTHROUGH {
+				body = body[:n-1]
+				for i, cl := range s.Body.List {
+					if cl == ast.Stmt(chosen) && i+1 < len(s.Body.List) {
+						next = s.Body.List[i+1].(*ast.CaseClause)
+					}
+				}
+				if next == nil {
+					m.abort("fallthrough without a following clause")
+				}
+			}
 		}
+		ctl = m.block(fr, body)
+		if ctl.kind != c18CtlNone {
+			break
+		}
+		chosen = next
 	}
-	ctl := m.block(fr, chosen.Body)
 	if ctl.kind == c18CtlBreak && (ctl.label == "" || ctl.label == label) {
 		return c18Ctl{}
 	}
